@@ -17,7 +17,6 @@ Ltac Zify.zify_post_hook ::= Z.div_mod_to_equations.
 
 (* ================================================================== A. from_utf8_lossy *)
 
-Definition ascii (c : N) : bool := c <? 128.
 
 (* one step of dec: the character produced and where decoding resumes *)
 Definition dec_step (b0 : N) (r0 : list N) : N * list N :=
@@ -275,8 +274,6 @@ Qed.
 
 (* ================================================================== C. hunk headers *)
 
-Definition hh_text (os oc ns nc : N) : str :=
-  s_hh_open ++ range_txt os oc ++ s_hh_plus ++ range_txt ns nc ++ s_hh_close.
 
 Definition dig_comma (c : N) : bool := is_digit c || (c =? 44).
 
@@ -548,8 +545,6 @@ Proof.
   rewrite !needs_quote_qp, !esc_qp by assumption. reflexivity.
 Qed.
 
-Definition ascii_paths (d : list file_diff) : bool :=
-  forallb (fun f => forallb ascii (fd_path f)) d.
 
 Lemma render_qp d : ascii_paths d = true -> render false d = render true d.
 Proof.
@@ -1334,28 +1329,13 @@ Qed.
 
 (* ================================================================== J. witnesses *)
 
-Definition mk_h (os : N) (old : list (list N)) (ns : N) (new : list (list N)) : hunk :=
-  mkHunk os old false ns new false [].
-Definition mk_f (p : list N) (hs : list hunk) : file_diff :=
-  mkFile p false false [49;48;48;54;52;52] [49;97;50;98;51;99;52] [53;100;54;101;55;102;56] hs.
-
-Definition t_weird : list N := [43;43;32;119;101;105;114;100].          (* ++ weird *)
-Definition t_later : list N := [97;105;32;108;97;116;101;114].          (* ai later *)
-Definition p_f : list N := [102;46;116;120;116].                        (* f.txt *)
-
-(* the reproduced two-hunk example *)
-Definition wit_k1 : list file_diff := [mk_f p_f [mk_h 1 [] 2 [t_weird]; mk_h 4 [] 6 [t_later]]].
-Definition wit_k2 : list file_diff := [mk_f [116;114;97;105;108;32] [mk_h 0 [] 1 [t_later]]].   (* trail + space *)
-Definition wit_k3 : list file_diff := [mk_f [98;101;108;7] [mk_h 0 [] 1 [t_later]]].            (* bel BEL *)
-Definition wit_panic : list file_diff := [mk_f p_f [mk_h 0 [] 1 [[43;43;32;34]]]].              (* ++ dq *)
-
 Lemma wit_k1_refutes :
   wf_doc wit_k1 = true /\ Known_C01_fmt wit_k1 = true /\
   parse_added (dec (render true wit_k1)) <> Ok (added_lines wit_k1).
 Proof. split; [reflexivity|]. split; [reflexivity|]. vm_compute. discriminate. Qed.
 
 Lemma known_classes_fail :
-  parse_added (dec (render true wit_k1)) = Ok [([43;43;32;119;101;105;114;100], [6]); (p_f, [2])] /\
+  parse_added (dec (render true wit_k1)) = Ok [(p_f, [2]); ([119;101;105;114;100], [6])] /\
   added_lines wit_k1 = [(p_f, [2; 6])] /\
   (wf_doc wit_k2 = true /\ parse_added (dec (render true wit_k2)) <> Ok (added_lines wit_k2)) /\
   (wf_doc wit_k3 = true /\ parse_added (dec (render true wit_k3)) <> Ok (added_lines wit_k3)) /\
@@ -1366,19 +1346,6 @@ Proof.
   split; [split; [reflexivity|vm_compute; discriminate]|].
   split; [reflexivity|vm_compute; reflexivity].
 Qed.
-
-(* a document inside the theorem: quoted path (space, double quote, backslash, e-acute as two bytes),
-   path with a space only (TAB after the label), a path beginning with a/, a deleted file, a new file
-   without final newline, a file section without hunks, a deletion-only hunk, body lines that look
-   like diff syntax, a CRLF line, a function-context text containing @@ *)
-Definition wit_ok : list file_diff :=
-  [ mk_f [97;32;34;92;195;169] [mk_h 3 [[45;45;32;121]] 3 [[64;64;32;45;49;32;43;49;32;64;64]; [43;32;120]];
-                                mkHunk 9 [[111]] true 10 [[92;32;78;111]; [99;13]] true [102;110;32;64;64;32;120]];
-    mk_f [120;32;121] [mk_h 5 [[100]] 4 []];
-    mk_f [97;47;98] [mk_h 0 [] 1 [[43;43]; [43;43;43]]];
-    mkFile [100] false true [49;48;48;54;52;52] [49;97] [48;48] [mk_h 1 [[122]] 0 []];
-    mkFile [110] true false [49;48;48;54;52;52] [48;48] [49;97] [mkHunk 0 [] false 1 [[110;101;119]] true []];
-    mk_f [101] [] ].
 
 Lemma wit_ok_inside : wf_doc wit_ok = true /\ Known_C01_fmt wit_ok = false.
 Proof. split; reflexivity. Qed.
